@@ -45,9 +45,9 @@ def setup_worker() -> None:
 
     listeners.install()
     for n in ("_add_priorities", "_get_date_range", "_get_property_filter", "_add_note_types", "_get_desc_filter"):
-        harness.COUNTERS.watch(n, getattr(qc, n))
-    harness.COUNTERS.watch("exitSubfilter", qc.ZorgQueryCompiler.exitSubfilter)
-    harness.COUNTERS.watch("_process_query", config._process_query)
+        harness.COUNTERS.watch_attr(qc, n)
+    harness.COUNTERS.watch_attr(qc.ZorgQueryCompiler, "exitSubfilter")
+    harness.COUNTERS.watch_attr(config, "_process_query")
 
 
 def plan(tier: str, seed: int) -> list[dict]:
